@@ -451,12 +451,51 @@ func (c *Ctx) runFloatFormat(rule string, pkgShort ...string) {
 			continue
 		}
 		info := p.TypesInfo
+		// the writers' methods and the package functions they call (two levels)
+		declOf := map[*types.Func]*ast.FuncDecl{}
 		for _, f := range p.Syntax {
 			for _, d := range f.Decls {
-				fd, ok := d.(*ast.FuncDecl)
-				if !ok || fd.Body == nil || !hasLibraryReader(fd) {
-					continue
+				if fd, ok := d.(*ast.FuncDecl); ok && fd.Body != nil {
+					if o, _ := info.Defs[fd.Name].(*types.Func); o != nil {
+						declOf[o] = fd
+					}
 				}
+			}
+		}
+		type scoped struct {
+			fd    *ast.FuncDecl
+			owner string
+		}
+		var work []scoped
+		inScope := map[*ast.FuncDecl]bool{}
+		for _, f := range p.Syntax {
+			for _, d := range f.Decls {
+				if fd, ok := d.(*ast.FuncDecl); ok && fd.Body != nil && hasLibraryReader(fd) {
+					work = append(work, scoped{fd, declName(p, fd)})
+					inScope[fd] = true
+				}
+			}
+		}
+		for level := 0; level < 2; level++ {
+			for _, w := range append([]scoped(nil), work...) {
+				ast.Inspect(w.fd.Body, func(nd ast.Node) bool {
+					if call, ok := nd.(*ast.CallExpr); ok {
+						if fn := calleeFunc(info, call); fn != nil && fn.Pkg() == p.Types {
+							if sig, _ := fn.Type().(*types.Signature); sig != nil && sig.Recv() == nil {
+								if hd := declOf[fn]; hd != nil && !inScope[hd] {
+									inScope[hd] = true
+									work = append(work, scoped{hd, w.owner + " via " + fn.Name()})
+								}
+							}
+						}
+					}
+					return true
+				})
+			}
+		}
+		{
+			for _, w := range work {
+				fd := w.fd
 				n := 0
 				ast.Inspect(fd.Body, func(nd ast.Node) bool {
 					call, ok := nd.(*ast.CallExpr)
@@ -464,11 +503,24 @@ func (c *Ctx) runFloatFormat(rule string, pkgShort ...string) {
 						return true
 					}
 					fn := calleeFunc(info, call)
+					if fn != nil && fn.Pkg() != nil && fn.Pkg().Path() == "strconv" && (fn.Name() == "FormatInt" || fn.Name() == "Itoa" || fn.Name() == "FormatUint") && len(call.Args) >= 1 {
+						// a float written through an integer conversion
+						if conv, ok := ast.Unparen(call.Args[0]).(*ast.CallExpr); ok && len(conv.Args) == 1 {
+							if tv, ok := info.Types[conv.Fun]; ok && tv.IsType() {
+								if b, ok := info.TypeOf(conv.Args[0]).Underlying().(*types.Basic); ok && b.Info()&types.IsFloat != 0 {
+									n++
+									c.analysed(w.owner)
+									c.bad(rule, fmt.Sprintf("%s FormatInt#%d", w.owner, n), call.Pos(), "a floating-point value is written through an integer conversion: magnitudes from 2^63, infinities and negative zero do not read back to the same value")
+								}
+							}
+						}
+						return true
+					}
 					if fn == nil || fn.Pkg() == nil || fn.Pkg().Path() != "strconv" || fn.Name() != "FormatFloat" || len(call.Args) != 4 {
 						return true
 					}
 					n++
-					name := declName(p, fd)
+					name := w.owner
 					c.analysed(name)
 					key := fmt.Sprintf("%s FormatFloat#%d", name, n)
 					// static type of the value before conversion to float64
